@@ -1,138 +1,29 @@
 package c07
 
 import (
-	"fmt"
-	"regexp"
-	"strings"
 	"testing"
 
-	"github.com/pentops/j5/internal/bcl/internal/verif/j5sgen"
-	"github.com/pentops/j5/internal/bcl/internal/verif/j5sx"
+	"github.com/pentops/j5/internal/bcl/internal/verif/attrx"
 	"github.com/pentops/j5/internal/bcl/internal/verif/vf"
 	"pgregory.net/rapid"
 )
 
-// lane: every attribute the schema offers, in every block.
-//
-// The valid-program generator writes the attributes the README documents. The
-// language definition (the sourcedef / schema messages the parser maps blocks
-// onto) offers many more - listRequest on a method, query settings, ext blocks,
-// protoField, ... - and "any source text" includes all of them. They are found
-// the way a user finds them: an unknown attribute is written into a block of a
-// valid file, and the parser's error lists what the block accepts; one of those
-// names is then assigned (or probed one level deeper, up to three levels). The
-// final text is the case; the oracle is totality and positioned errors.
-
-var availRe = regexp.MustCompile(`(?:available: |expecting )\[([^\]]*)\]`)
-
-// offered returns the attribute names the compiler's error offers for a probe.
-func offered(text, file string) []string {
-	b := &j5sx.Bundle{Files: map[string]string{file: text}}
-	var err error
-	if f := vf.Guard("probe", func() { _, err = j5sx.Compile(b, j5sx.PackageOf(file)) }); f != nil || err == nil {
-		return nil
-	}
-	m := availRe.FindAllStringSubmatch(err.Error(), -1)
-	seen := map[string]bool{}
-	var out []string
-	for _, g := range m {
-		for _, n := range strings.Fields(g[1]) {
-			n = strings.Trim(n, `"`)
-			if n != "" && !seen[n] {
-				seen[n] = true
-				out = append(out, n)
-			}
-		}
-	}
-	return out
-}
-
-var attrValues = []string{`"x"`, `""`, `5`, `0`, `-1`, `1.5`, `true`, `false`, `["a"]`, `["a", "b"]`, `[1, 2]`, `[]`, `name`, `alpha.beta.v1.Thing`, `"alpha.beta.v1.Thing"`, `GET`, `"😀"`, `99999999999999999999`}
-
-func insertAfter(lines []string, at int, line string) string {
-	out := append(append(append([]string(nil), lines[:at+1]...), line), lines[at+1:]...)
-	return strings.Join(out, "\n")
-}
-
+// lane: every attribute the schema offers, in every block (generator: attrx).
+// "Any source text" includes all of them; the oracle is totality and positioned
+// errors. What becomes of the packages the compiler accepts is C05's and C16's
+// business (their attribute lanes).
 func TestAttributes(t *testing.T) {
 	r := vf.Start(t, prop, "attributes")
 	rapid.Check(t, func(t *rapid.T) {
-		o := j5sgen.DefaultOpts()
-		o.MaxPackages, o.MaxFiles = 1, 1
-		o.Entities = true
-		b, _ := j5sgen.Draw(t, o)
-		var file, text string
-		for k, v := range b.Render() {
-			file, text = k, v
-		}
-		lines := strings.Split(text, "\n")
-		var opens []int
-		for i, l := range lines {
-			if strings.HasSuffix(strings.TrimSpace(l), "{") {
-				opens = append(opens, i)
-			}
-		}
-		if len(opens) == 0 {
+		a, ok := attrx.Draw(t)
+		if !ok {
 			r.Discard()
 			return
 		}
-		// by kind first: fields and objects outnumber everything else
-		byKind := map[string][]int{}
-		var kinds []string
-		for _, i := range opens {
-			k := strings.Fields(lines[i])[0]
-			if byKind[k] == nil {
-				kinds = append(kinds, k)
-			}
-			byKind[k] = append(byKind[k], i)
-		}
-		blockKind := rapid.SampledFrom(kinds).Draw(t, "blockkind")
-		at := rapid.SampledFrom(byKind[blockKind]).Draw(t, "block")
-		indent := lines[at][:len(lines[at])-len(strings.TrimLeft(lines[at], "\t "))] + "\t"
-		path := ""
-		depth := 0
-		for depth < 3 {
-			probe := "zzzProbe"
-			if path != "" {
-				probe = path + ".zzzProbe"
-			}
-			names := offered(insertAfter(lines, at, indent+probe+" = 1"), file)
-			if len(names) == 0 {
-				break
-			}
-			n := rapid.SampledFrom(names).Draw(t, "attr")
-			if path == "" {
-				path = n
-			} else {
-				path += "." + n
-			}
-			depth++
-			if rapid.IntRange(0, 2).Draw(t, "deeper") == 0 {
-				break // otherwise one level deeper, while the parser offers names
-			}
-		}
-		if path == "" {
-			// the block offers nothing (or the probe was accepted): any name
-			path = rapid.SampledFrom([]string{"description", "name", "options", "rules", "ext", "zzz"}).Draw(t, "anyattr")
-		}
-		var stmt string
-		switch rapid.IntRange(0, 5).Draw(t, "form") {
-		case 0: // as a block
-			stmt = indent + path + " {\n" + indent + "}"
-		case 1: // as a bare flag / tag
-			stmt = indent + path
-		default:
-			stmt = indent + path + " = " + rapid.SampledFrom(attrValues).Draw(t, "value")
-		}
-		final := insertAfter(lines, at, stmt)
-		c := srcCase{Files: map[string]string{file: final}, Valid: false, What: "attribute"}
-		first := path
-		if i := strings.Index(path, "."); i >= 0 {
-			first = path[:i]
-		}
-		r.Eval(depth > 0, vf.Hash(final), "block:"+blockKind, fmt.Sprintf("depth:%d", depth), "attr:"+first)
-		if depth >= 2 && r.WantSample() {
-			r.Sample(map[string]string{"block": strings.TrimSpace(lines[at]), "statement": strings.TrimSpace(stmt)})
+		c := srcCase{Files: map[string]string{a.File: a.Text}, Valid: false, What: "attribute"}
+		r.Eval(a.Depth > 0, vf.Hash(a.Text), a.Classes...)
+		if a.Depth >= 2 && r.WantSample() {
+			r.Sample(map[string]string{"block": a.BlockHead, "statement": a.Statement})
 		}
 		r.Journal(c)
 		r.Judge(t, c, check(c))
